@@ -136,20 +136,29 @@ def check(an: Analysis) -> None:
 
         return with_locals(ds, f)
 
+    from ..kinds import Scenario
+
     for present in (True, False):
-        reach = gs.reachable([gs.entry], skip_edge=both(scenario(gs, env(present)), normal_only))
+        sc = Scenario(gs, ds, env(present))
+        reach = gs.reachable([gs.entry], skip_edge=both(sc.skip, normal_only))
         live = [s for s in stores if s.id in reach]
         if not live:
             ob.fail(srec, None, f"no store reachable when a previous value is {'present' if present else 'absent'}")
         for st in live:
             v = unwrap(st.ast.value)  # type: ignore[union-attr]
-            if present:
-                ok = isinstance(v, ast.Call) and is_name(v.func, "merge") and len(v.args) == 2 and is_stored(v.args[0]) and is_name(unwrap(v.args[1]), mp)
-                if not ok:
-                    ob.fail(srec, st.ast, "with a previous value present the stored value is not merge(<previous>, <new>) in that order (the fold over records is broken)")
-            else:
-                if not is_name(v, mp):
-                    ob.fail(srec, st.ast, "the first record of a type is not stored as is")
+            alts = [v]
+            if isinstance(v, ast.Name) and v.id != mp and ds.single_value(v.id) is None:
+                alts = [unwrap(x) for x in sc.values_of(v.id)] or [v]
+            elif isinstance(v, ast.Name) and v.id != mp:
+                alts = [unwrap(ds.single_value(v.id))]
+            for v in alts:
+                if present:
+                    ok = isinstance(v, ast.Call) and is_name(v.func, "merge") and len(v.args) == 2 and is_stored(v.args[0]) and is_name(unwrap(v.args[1]), mp)
+                    if not ok:
+                        ob.fail(srec, st.ast, "with a previous value present the stored value is not merge(<previous>, <new>) in that order (the fold over records is broken)")
+                else:
+                    if not is_name(v, mp):
+                        ob.fail(srec, st.ast, "the first record of a type is not stored as is")
 
     # ------------------------------------------------------------------ C10.4 presence not by truthiness
     ob = an.ob("C10.4", "K10", "presence of a previously stored metric is tested by `is None` / `in`, never by the truthiness of a (user-subclassable) State value", [f"{SM}.record"])
@@ -195,28 +204,49 @@ def check(an: Analysis) -> None:
         ob.fail(mf, None, f"metrics() applies the merge function at {len(merges)} sites (expected one)")
     for c in merges:
         ob.inst(mf, c)
-        a0 = unwrap(c.args[0]) if c.args else None
+        a0 = unwrap(dm.inline(c.args[0])) if c.args else None
         a1 = unwrap(c.args[1]) if len(c.args) > 1 else None
         cur_ok = isinstance(a0, ast.Call) and isinstance(a0.func, ast.Attribute) and a0.func.attr == "get" and len(a0.args) == 2 and "MISSING" in (dotted(a0.args[1]) or "")
         rec_ok = a1 is not None and any(o.startswith("iter:") for o in dm.origins(a1))
         if not (cur_ok and rec_ok):
             ob.fail(mf, c, "nested values are not folded as merge(<current or MISSING>, <received>)")
+    for c in merges:
+        pass
     loops = [n for n in mf.own_nodes() if isinstance(n, ast.For)]
+    outer_ok = False
     for lp in loops:
         it = unwrap(lp.iter)
         ob.inst(mf, lp)
-        src = it
         if isinstance(it, ast.Call) and an.callee(mf, it) == "itertools.chain.from_iterable" and it.args:
             gen = unwrap(it.args[0])
             if isinstance(gen, (ast.GeneratorExp, ast.ListComp)) and len(gen.generators) == 1 and not gen.generators[0].ifs:
-                src = gen.generators[0].iter
                 el = unwrap(gen.elt)
                 if not (isinstance(el, ast.Call) and isinstance(el.func, ast.Attribute) and el.func.attr == "metrics" and any(k.arg == "merge" and is_name(k.value, "merge") for k in el.keywords)):
                     ob.fail(mf, lp, "nested scopes' values are not obtained through nested.metrics(merge=merge) (depth-first fold)")
+                if dotted(gen.generators[0].iter) == "self._nested":
+                    outer_ok = True
+                else:
+                    ob.fail(mf, lp, "the fold does not run over self._nested in creation order")
             else:
                 ob.fail(mf, lp, "nested scopes are filtered while folding")
-        if dotted(src) != "self._nested":
+        elif dotted(it) == "self._nested":
+            # explicit nesting: for nested in self._nested: for metric in nested.metrics(merge=merge): ...
+            inner = [x for x in lp.body if isinstance(x, ast.For)]
+            var = lp.target.id if isinstance(lp.target, ast.Name) else None
+            good = len(lp.body) == 1 and len(inner) == 1
+            if good:
+                el = unwrap(inner[0].iter)
+                good = isinstance(el, ast.Call) and isinstance(el.func, ast.Attribute) and el.func.attr == "metrics" and is_name(el.func.value, var or "") and any(k.arg == "merge" and is_name(k.value, "merge") for k in el.keywords)
+            if good:
+                outer_ok = True
+            else:
+                ob.fail(mf, lp, "nested scopes' values are not obtained through nested.metrics(merge=merge) for every nested scope in order")
+        elif isinstance(it, ast.Call) and isinstance(it.func, ast.Attribute) and it.func.attr == "metrics":
+            continue  # the inner loop of the explicit nesting, checked with its outer loop
+        else:
             ob.fail(mf, lp, "the fold does not run over self._nested in creation order")
+    if loops and not outer_ok and not any(f.rule == "C10.5" for f in ob.findings):
+        ob.fail(mf, loops[0], "the fold does not run over self._nested in creation order")
     base = [n for n in mf.own_nodes() if isinstance(n, (ast.Assign, ast.AnnAssign)) and isinstance(n.targets[0] if isinstance(n, ast.Assign) else n.target, ast.Name) and n.value is not None and any(dotted(x) == "self._metrics" for x in ast.walk(n.value))]
     if not base:
         ob.fail(mf, None, "the merged view does not start from the scope's own recorded values")
